@@ -22,6 +22,9 @@ fn case_json(c: &SnpCase, with_ref: bool, m: &str, seed: u64) -> Value {
 }
 
 pub fn well_formed(o: &lo::LoOut, n: usize, m: f32) -> Result<(), String> {
+    if !o.snp_names.is_empty() && o.snp_names != lo::sample_names(n) {
+        return Err(format!("the SNP alignment lists the samples {:?}, the input holds {:?}", o.snp_names, lo::sample_names(n)));
+    }
     if o.snp_seqs.len() != n {
         return Err(format!("{} sequences in the SNP alignment for {n} samples", o.snp_seqs.len()));
     }
@@ -103,6 +106,11 @@ pub fn check(c: &SnpCase, with_ref: bool, m: &str, seed: u64, dir: &str) -> Resu
         return Err(format!("pseudo-genomes: {} sequences of length {:?}, expected {n} of length {}", pseudo.len(), pseudo.first().map(|p| p.len()), c.ancestor.len()));
     }
     let mut called = std::collections::BTreeSet::new();
+    let names = lo::sample_names(n);
+    if o.pseudo.as_ref().map(|p| &p.0) != Some(&names) {
+        return Err(format!("pseudo-genomes are named {:?}, the samples are {names:?}", o.pseudo.as_ref().map(|p| p.0.clone())));
+    }
+    let gt_col = lo::gt_order(&vcf, &names).map_err(|e| format!("SNP VCF: {e}"))?;
     for l in vcf.lines() {
         if l.starts_with('#') || l.is_empty() {
             continue;
@@ -132,7 +140,7 @@ pub fn check(c: &SnpCase, with_ref: bool, m: &str, seed: u64, dir: &str) -> Resu
         alleles.extend(f[4].split(',').filter(|a| !a.is_empty() && *a != "."));
         for i in 0..n {
             let truth = orient(c.sample_seq(i)[p0]);
-            let g = f[9 + i];
+            let g = f[9 + gt_col[i]];
             if g != "." {
                 let ai: usize = g.parse().map_err(|_| format!("GT {g}"))?;
                 let a = alleles.get(ai).ok_or(format!("GT {g} without allele"))?;
